@@ -1034,7 +1034,7 @@ struct SchedHarness : Harness {
 			if (solver == "block3") xr = nnls_normal_block3(A, b, vb, &c);
 			else if (solver == "block") xr = nnls_normal_block(A, b, vb, &c);
 			else if (solver == "updown") xr = nnls_normal_block_updown(A, b, vb, &c);
-			else if (solver == "lh_normal") xr = nnls_lawson_hanson(A, b, prob.getd("lh_tol", 0), 0, (int)prob.geti("lh_maxiter", 0), 0, 1, 0, &c);
+			else if (solver == "lh_normal") xr = nnls_lawson_hanson(A, b, prob.getd("lh_tol", 0), 0, (int)prob.geti("lh_maxiter", 0), 0, 1, vb, &c);
 			else xr = nnls_lawson_hanson(A, b, prob.getd("lh_tol", 0), 0, (int)prob.geti("lh_maxiter", 0), 0, 0, 0, &c);
 		});
 		std::string what = solver;
